@@ -158,6 +158,10 @@ M = {
     "proto-drop-nan-intermediate": ("optuna/storages/_grpc/servicer.py",
         "        intermediate_values={step: value for step, value in trial.intermediate_values.items()},\n    )\n\n\ndef _from_proto_trial",
         "        intermediate_values={step: value for step, value in trial.intermediate_values.items() if value == value},\n    )\n\n\ndef _from_proto_trial", ["C01"]),
+    # ---- C08 -------------------------------------------------------------------------------
+    "cached-own-delete-keeps-number-map": ("optuna/storages/_cached_storage.py",
+        "                    if (study_id, trial_number) in self._study_id_and_number_to_trial_id:\n                        del self._study_id_and_number_to_trial_id[(study_id, trial_number)]\n",
+        "", ["C08"]),
     "mem-unfix-waiting-cursor": ("optuna/storages/_in_memory.py",
         "                if state == TrialState.WAITING:\n", "                if False:\n", ["C01"]),
 }
